@@ -13,7 +13,7 @@ import copy as _copy
 import numpy as np
 
 from simphot import scenes
-from simphot.compare import diff, digest
+from simphot.compare import diff, digest, plain
 from simphot.kernel import (Inapplicable, Machine, Raised, Violation, call,
                             dec, enc)
 
@@ -65,6 +65,11 @@ def select(value, rows, scalar):
     if isinstance(value, (list, tuple)):
         return [value[r] for r in rows]
     return value[np.asarray(rows, dtype=int)]
+
+
+def invalid_arg(method, arg):
+    return ((method == 'circular_photometry' and arg <= 0)
+            or (method == 'fluxfrac_radius' and not 0 < arg <= 1))
 
 
 class CatalogMachine(Machine):
@@ -466,7 +471,7 @@ class CatalogMachine(Machine):
             vals = [round(rng.uniform(-5, 5), 3) for _ in range(n)]
             if kind == 'wronglen':
                 vals = vals + [1.0, 2.0]
-            valkind = rng.pick(['array', 'array', 'list', 'strs'])
+            valkind = rng.pick(['array', 'array', 'list', 'strs', 'tuple'])
             if valkind == 'strs':
                 vals = [f's{v}' for v in vals]
             return {'op': 'add_extra', 'actor': k, 'name': name,
@@ -485,6 +490,11 @@ class CatalogMachine(Machine):
     def _gen_phot(self, rng, st, k):
         st.extra_counter += 1
         name = rng.pick([None, f'ph{st.extra_counter}'])
+        used = sorted({n.rsplit('_flux', 1)[0] for n in st.actors[k].extras
+                       if n.startswith('ph')})
+        if rng.chance(0.2):
+            # a name that is taken (rejected: the catalog stays as it was)
+            name = rng.pick(used + ['kron', 'segment'])
         r = rng.random()
         if r < 0.45:
             return {'op': 'phot', 'actor': k, 'method': 'circular_photometry',
@@ -725,7 +735,7 @@ class CatalogMachine(Machine):
         else:
             # a plain Python list (of floats or of strings): the catalog
             # keeps it as a list and indexes it through another path
-            value = list(vals)
+            value = tuple(vals) if valkind == 'tuple' else list(vals)
             st.stats.probe('extra_list_valued')
         wrong = len(vals) != n
         if a.scalar and not wrong:
@@ -795,9 +805,28 @@ class CatalogMachine(Machine):
             arg = tuple(arg)
         invalid = ((method == 'circular_photometry' and arg <= 0)
                    or (method == 'fluxfrac_radius' and not 0 < arg <= 1))
+        new_names = ([] if not name else [name] if method ==
+                     'fluxfrac_radius' else [f'{name}_flux',
+                                             f'{name}_fluxerr'])
+        clash = [n for n in new_names if n in a.extras or n in st.props
+                 or hasattr(type(a.cat), n)]
         out = call(getattr(a.cat, method), arg, name=name)
         ref = call(getattr(st.fresh, method), arg)
         st.trace.add('phot', method, digest(out))
+        if clash and not invalid_arg(method, arg):
+            st.stats.fault('reject')
+            if not isinstance(out, Raised):
+                raise Violation('reject', method,
+                                f'{method}({arg}, name={name!r}) accepted '
+                                f'although {clash} exist')
+            # whatever was added before the clash was noticed belongs to
+            # this catalog only; everything else is as before (the reads
+            # that follow compare with the never-touched reference)
+            for n in call(lambda: list(a.cat.extra_properties)):
+                if n not in a.extras:
+                    a.extras[n] = getattr(a.cat, n)
+            st.stats.probe('photometry_name_rejected')
+            return
         if invalid:
             st.stats.fault('reject')
             if not isinstance(out, Raised):
@@ -848,11 +877,24 @@ class CatalogMachine(Machine):
                 if isinstance(v, Raised):
                     raise Violation('independence', 'extra_value',
                                     f'actor {j}: {name}: {v!r}')
+                if isinstance(v, tuple) and isinstance(vals, list):
+                    v = list(v)      # given as a tuple: content counts
                 d = diff(v, vals, 1e-7, 1e-9, check_dtype=False)
                 if d:
                     raise Violation('independence', 'extra_value',
                                     f'after {_short(op)} actor {j} (rows '
                                     f'{b.rows}) {name}: {d}')
+            # ... and the same meta as when it came into being, whatever
+            # its relatives did since
+            md = digest({str(k): plain(v) for k, v in dict(
+                b.cat.meta).items()})
+            if getattr(b, 'meta0', None) is None:
+                b.meta0 = md
+            elif md != b.meta0 and j != op.get('actor'):
+                raise Violation('independence', 'meta',
+                                f'after {_short(op)} actor {j} (rows '
+                                f'{b.rows}) reports another meta: '
+                                f'{dict(b.cat.meta)}')
         if len(st.actors) > 1:
             st.stats.probe('family_extras_checked_multi')
 
